@@ -69,7 +69,7 @@ def run(ctx) -> None:
         r05_2(ctx, ctx.unit(short))
     r05_3(ctx)
     r05_4(ctx)
-    r05_5(ctx)
+    r05_5(ctx, consumption="ends")
     c01.r01_4(_Relabel(ctx))
     from . import c09
     ctx.rule("R05.7", "tee: a child with buffered items yields them without waiting for the lock (R09.2)")
@@ -491,19 +491,20 @@ class _SliceOps:
 
 
 def _islice_spec(n: int, start, stop, step):
-    """itertools.islice over n items: (indexes yielded, number of items consumed)."""
+    """itertools.islice over n items: (indexes yielded, number of items consumed, how often the
+    source was asked when it had nothing left)."""
     start = start or 0
     step = step or 1
     nxt, cnt, out = start, 0, []
     while True:
         while cnt < nxt:
             if cnt >= n:
-                return out, cnt
+                return out, cnt, 1
             cnt += 1
         if stop is not None and cnt >= stop:
-            return out, cnt
+            return out, cnt, 0
         if cnt >= n:
-            return out, cnt
+            return out, cnt, 1
         out.append(cnt)
         cnt += 1
         nxt += step
@@ -511,7 +512,7 @@ def _islice_spec(n: int, start, stop, step):
             nxt = stop
 
 
-def r05_5(ctx, consumption: bool = True) -> None:
+def r05_5(ctx, consumption=True) -> None:
     """islice as a table: for every (start, stop, step) in a small cube and sources of 0..6 items
     the items yielded and the number of items pulled equal itertools.islice's (the statement:
     "stops without touching item stop", "never consumes more than its counterpart")."""
@@ -530,23 +531,26 @@ def r05_5(ctx, consumption: bool = True) -> None:
             ctx.count("islice_cells")
             ops = _SliceOps(ctx, u.module, n)
             outs = Machine(cfg, ops, resolver=make_resolver(ctx, u, ops, skip=("borrow", "aiter", "iter"))).run({p: "SRC", va: tuple(args)})
-            want_y, want_c = _islice_spec(n, sl.start, sl.stop, sl.step)
+            want_y, want_c, want_e = _islice_spec(n, sl.start, sl.stop, sl.step)
             got = set()
             for oc in outs:
                 tr = oc.env.get("@trace", ())
                 ys = tuple(e[1][1] if isinstance(e[1], tuple) and e[1][:1] == ("item",) else e[1] for e in tr if e[0] == "yield")
                 pulls = sum(1 for e in tr if e[0] == "pull")
-                got.add((ys, pulls, oc.terminal.kind))
+                ends = sum(1 for e in tr if e[0] == "end")
+                got.add((ys, pulls, oc.terminal.kind) + ((ends,) if consumption == "ends" else ()))
             if not consumption:
                 # (C01 speaks of the items only; how many items are pulled is C05's / C06's / C08's business)
                 got = {(ys, want_c, kind_) for (ys, _pulls, kind_) in got}
-            ok = got == {(tuple(want_y), want_c, "exit")}
+            ok = got == {(tuple(want_y), want_c, "exit") + ((want_e,) if consumption == "ends" else ())}
             if not ok:
                 bad += 1
                 if bad <= 4:
                     ctx.fail("R05.5", u, "islice", f"[islice(<{n} items>, {', '.join(map(str, args))})] yields / consumption differ from "
-                             "itertools.islice", witness=f"evaluated (yielded indexes, items pulled, exit): {sorted(map(str, got))[:2]}; "
-                             f"itertools.islice: yields {want_y}, pulls {want_c}")
+                             "itertools.islice", witness=f"evaluated (yielded indexes, items pulled, exit"
+                             f"{', end-of-source detections' if consumption == 'ends' else ''}): {sorted(map(str, got))[:2]}; "
+                             f"itertools.islice: yields {want_y}, pulls {want_c}"
+                             f"{', end-of-source detections ' + str(want_e) if consumption == 'ends' else ''}")
     if not bad:
         ctx.ok("R05.5", u, f"islice equals itertools.islice in yielded indexes and in the number of items pulled for "
                f"{len(shapes)} slicings x 3 source lengths")
@@ -561,17 +565,28 @@ def run_thorough(ctx) -> None:
                 [(a, b, c) for a in range(0, 4) for b in (None, 0, 1, 3, 4, 5, 7) for c in (1, 2, 3, 4)]:
         for n in range(0, 8):
             pulled = []
+            ends = []
 
-            def src():
-                for i in range(n):
-                    pulled.append(i)
-                    yield i
+            class Src:
+                def __init__(self):
+                    self.i = 0
 
-            got = list(_it.islice(src(), *args))
+                def __iter__(self):
+                    return self
+
+                def __next__(self):
+                    if self.i >= n:
+                        ends.append(self.i)
+                        raise StopIteration
+                    pulled.append(self.i)
+                    self.i += 1
+                    return self.i - 1
+
+            got = list(_it.islice(Src(), *args))
             sl = slice(*args)
-            want_y, want_c = _islice_spec(n, sl.start, sl.stop, sl.step)
+            want_y, want_c, want_e = _islice_spec(n, sl.start, sl.stop, sl.step)
             ctx.count("oracle_cells")
-            if got != want_y or len(pulled) != want_c:
+            if got != want_y or len(pulled) != want_c or len(ends) != want_e:
                 raise AnalysisError(f"islice specification disagrees with itertools.islice for n={n} args={args}: "
-                                    f"spec {want_y}/{want_c}, stdlib {got}/{len(pulled)}")
+                                    f"spec {want_y}/{want_c}/{want_e}, stdlib {got}/{len(pulled)}/{len(ends)}")
     ctx.ok("R05.T", "itertools (stdlib)", "specification function agrees with itertools.islice on every cell of the oracle cube")
